@@ -992,6 +992,8 @@ func c05GenSpec(r *vfRand, idx int) c05Spec {
 				c.Val = nil
 			case y < 24:
 				c.Key, c.RecKey = "/w/a1", "/w/a1" // no validator for this namespace
+			case y < 32:
+				c.RecKey = "" // the record leaves its embedded key unset (the message key is set)
 			}
 			calls = append(calls, c)
 		case x < 82:
@@ -1084,6 +1086,7 @@ func c05Emit(cs *vfCases, r *c05Run, meta map[string]any) {
 }
 
 func c05Exec(t *testing.T, spec c05Spec, graceUs int64) *c05Run {
+	vfBeat(nil)
 	r := &c05Run{spec: spec, tags: map[string]bool{}, graceUs: graceUs}
 	synctest.Test(t, func(t *testing.T) { r.run(t) })
 	return r
@@ -1148,12 +1151,15 @@ func TestVerifC05(t *testing.T) {
 	graceUs := int64(vfEnvInt("VERIF_C05_GRACE_US", 300))
 	cs := vfNewCases("Run_C05", 400)
 	root := vfNewRand(seed)
+	vfStartWatchdog(90 * time.Second)
+	defer vfStopWatchdog()
 	for i := 0; i < n; i++ {
 		r := root.Fork()
 		if only >= 0 && i != only {
 			continue
 		}
 		spec := c05GenSpec(r, i)
+		vfBeat(map[string]any{"case": i, "seed": seed, "mode": "random", "spec": spec})
 		run := c05Exec(t, spec, graceUs)
 		c05Emit(cs, run, map[string]any{"case": i, "seed": seed, "mode": "random"})
 		if strings.HasPrefix(run.fail, "deadlock") || strings.HasPrefix(run.fail, "a goroutine") {
